@@ -260,6 +260,43 @@ def global_summary(mod, funcs, q: str, name: str, depth: int = 0):
     return ends[0] if all(e == ends[0] for e in ends) else "mixed"
 
 
+def check_glob(repo: Repo, run: Run, rule: str) -> None:
+    """glob(text, pattern) is the shell-pattern relation on the whole text (shared with C19: the translated
+    `op: glob` clause relies on it)."""
+    c7 = repo.mod("c7nlib")
+    gl = c7.func_n("glob")
+    e = ret_expr(gl)
+    core = unwrap(e, "BoolType", "bool") if e is not None else None
+    gp = [a.arg for a in gl.args.args]
+    shown = ast.unparse(e) if e is not None else "?"
+    verdict: Optional[bool] = None
+    why = "the way the pattern is matched was not recognised"
+    if isinstance(core, ast.Compare) and len(core.ops) == 1 and isinstance(core.ops[0], (ast.IsNot, ast.NotEq)) and ast.unparse(core.comparators[0]) == "None":
+        core = strip_cast(core.left)
+    if isinstance(core, ast.Call):
+        d = dotted(core.func) or ""
+        args = [ast.unparse(strip_cast(a)) for a in core.args]
+        if d.split(".")[-1] in ("fnmatch", "fnmatchcase") and len(args) == 2:
+            verdict = args == gp
+            why = "shell-pattern match of (text, pattern)" if verdict else f"the arguments are passed as {args}: fnmatch takes (text, pattern)"
+        elif d in ("re.search", "re.match", "re.fullmatch") and len(core.args) == 2 and isinstance(strip_cast(core.args[0]), ast.Call) \
+                and (dotted(strip_cast(core.args[0]).func) or "").endswith("translate"):
+            targ = [ast.unparse(a) for a in strip_cast(core.args[0]).args]
+            if targ != gp[1:2] or args[1] != gp[0]:
+                verdict, why = False, f"translate({targ}) is matched against `{args[1]}`: the pattern and the text are exchanged"
+            elif d == "re.search":
+                verdict, why = False, ("fnmatch.translate() anchors the end only; re.search lets the match start anywhere, so a pattern matches any *suffix* of the text "
+                                       "(`prod-*` matches `non-prod-1`): `op: glob` no longer is the glob relation")
+            else:
+                verdict, why = True, "the translated pattern (anchored at the end) is matched from the start of the text"
+    elif isinstance(core, ast.Compare) and len(core.ops) == 1 and isinstance(core.ops[0], (ast.In, ast.Eq)):
+        verdict, why = False, "a containment / equality test is not shell-pattern matching"
+    if verdict is None:
+        run.inconclusive(rule, "glob", f"glob = `{shown[:70]}`: {why}")
+    else:
+        run.ob(rule, "glob", verdict, f"glob = `{shown}`; {why}", c7.loc(gl))
+
+
 def check(repo: Repo, run: Run) -> None:
     run.explanation = (
         "X1 (typestate of the module global C7N): its only writers are C7NContext.__enter__/__exit__; __exit__ assigns None on "
@@ -383,12 +420,7 @@ def check(repo: Repo, run: Run) -> None:
     e = ret_expr(nz)
     meths = [n.func.attr for n in ast.walk(e) if isinstance(n, ast.Call) and isinstance(n.func, ast.Attribute) and n.func.attr[0].islower()] if e is not None else []
     run.ob("C17.X4", "normalize", sorted(meths) == ["lower", "strip"], f"normalize applies {meths}; definition: trim and lower-case", c7.loc(nz))
-    gl = c7.func("glob")
-    e = ret_expr(gl)
-    core = unwrap(e, "BoolType", "bool") if e is not None else None
-    gp = [a.arg for a in gl.args.args]
-    ok = isinstance(core, ast.Call) and dotted(core.func) in ("fnmatch.fnmatch", "fnmatch.fnmatchcase", "fnmatch") and [ast.unparse(a) for a in core.args] == gp
-    run.ob("C17.X4", "glob", ok, f"glob = `{ast.unparse(e) if e is not None else '?'}`; definition: shell-pattern match of (text, pattern)", c7.loc(gl))
+    check_glob(repo, run, "C17.X4")
     ky = c7.func("key")
     s = ast.unparse(ky)
     consts = {n.value for n in ast.walk(ky) if isinstance(n, ast.Constant) and isinstance(n.value, str) and n.value in ("Key", "Value")}
@@ -419,4 +451,21 @@ def check(repo: Repo, run: Run) -> None:
     mk = c7.func("marked_key")
     s = ast.unparse(mk)
     ok = ".rsplit(':', 1)" in s and ".split('@', 1)" in s and all(f"StringType('{k}')" in s for k in ("message", "action", "action_date")) and "key(source, target)" in s
+    # the tag value is `message:action@date`; the message may itself contain ':' (c7n splits at the LAST colon)
+    mkn = c7.func_n("marked_key")
+    cuts = []
+    for n in ast.walk(mkn):
+        if isinstance(n, ast.Call) and isinstance(n.func, ast.Attribute) and n.func.attr in ("split", "rsplit", "partition", "rpartition") and n.args \
+                and isinstance(n.args[0], ast.Constant) and n.args[0].value == ":":
+            limit = n.args[1].value if len(n.args) > 1 and isinstance(n.args[1], ast.Constant) else None
+            cuts.append((n.func.attr, limit, n))
+    for meth, limit, node in cuts:
+        from_right = meth in ("rsplit", "rpartition")
+        once = meth.endswith("partition") or limit == 1
+        if not from_right or not once:
+            run.ob("C17.X4", "marked_key|last-colon", False,
+                   f"marked_key cuts the tag value with `{ast.unparse(node)[-40:]}`: the message part of `message:action@date` may contain ':', "
+                   "so the action must be taken after the LAST colon (one cut from the right); a marked resource whose message contains a colon gets a wrong action / no mark", c7.loc(node))
+        else:
+            run.ob("C17.X4", "marked_key|last-colon", True, "marked_key separates message and action at the last ':'", c7.loc(node))
     run.shape("C17.X4", "marked_key", ok, "marked_key decomposes `message:action@date` (last ':' then first '@') into message/action/action_date", c7.loc(mk))
